@@ -25,7 +25,8 @@ REACH_MIN = {"requests_completed_with_response": {"quick": 600, "thorough": 8100
              "pattern_close_cancels_sibling": {"quick": 15, "thorough": 400},
              "pattern_disconnect_window": {"quick": 15, "thorough": 400},
              "pattern_flush_on_connect": {"quick": 15, "thorough": 400},
-             "pattern_odd_ids": {"quick": 15, "thorough": 400}}
+             "pattern_odd_ids": {"quick": 15, "thorough": 400},
+             "pattern_late_data": {"quick": 15, "thorough": 400}}
 
 
 def cases(tier, seed):
@@ -33,7 +34,7 @@ def cases(tier, seed):
     out = [dict(kind="bc", seed=seed * 1000003 + i) for i in range(n)]
     nb = {"quick": 160, "thorough": 4000}[tier]
     out += [dict(kind="bootstrap", seed=seed * 1000033 + i) for i in range(nb)]
-    npat = {"quick": 200, "thorough": 5000}[tier]
+    npat = {"quick": 240, "thorough": 6000}[tier]
     out += [dict(kind="pattern", seed=seed * 1000037 + i) for i in range(npat)]
     return out
 
